@@ -23,6 +23,9 @@ BOUNDS = ["0", "1", "(0-1)", "(0-2)", "511", "512", "513", "2147483647", "461168
           "9223372036854775807", "(0-9223372036854775807)", "(0-9223372036854775807-1)"]
 
 
+KF_JSON_TREE = "json-of-shared-structure-is-its-tree-unfolding"
+
+
 def operand_matrix(rnd):
     out = []
     # boundary PAIRS for every two-operand construct
@@ -77,6 +80,13 @@ def nesting_sweeps():
             "[(0-9223372036854775807)..9223372036854775807]", "[1 ? 2, 3]", "y = 0 || [", "&x.x=xx || [", "func g(c) { x = c.d = 2 }; g({})", "1 || [1,2][0:1]",
             "^st力量-1&&'a'", "x='abc'; x[3]", "x='" + "a" * 40 + "'; x[40]", "this.x = 5; this.x", "&a = d; a", "func g(){return d}; g()", "[x,2]\n[x,2]",
             "5\n{'a':1", "dct = b(d)a(3)", ".\n", "\xff", "if", "break", "`{% %}`", ""]
+    # shared sub-structure (a DAG, not a cycle): every step costs a handful of operations and doubles the TREE unfolding of the
+    # value; printing (result text, repr, process text, templates, toStr) must stay proportional to the object graph
+    for k in (3, 12, 30, 60):
+        for first, stepf in (("a=[1]", "a=[a,a]"), ("a={'x':1}", "a={'x':a,'y':a}"), ("a=[1]", "a={'l':a,'r':[a,a]}")):
+            build = first + "; " + "; ".join([stepf] * k)
+            for look in ("a", "toStr(a).len()", "repr(a).len()", "x = `v={a}`; x.len()", "[a, a]", "a == a", "b = a; a == b"):
+                out.append(build + "; " + look)
     # prototype chains that run into a cycle (of length L, entered after a tail of T objects that are not on it): every kind of
     # lookup must return (attribute missing / found on the way / built-in method / assignment / printing / comparison)
     for L in (1, 2, 3):
@@ -197,6 +207,19 @@ def run(res, tier, seed):
             if found < 6:
                 res.violation(dict(describe(c), what="Go panic escaped to the host", panic=row["panic"], during=row["where"], innermost_frame=row.get("frame")))
                 found += 1
+    # recorded finding: the JSON text of variables with shared sub-structure is the tree unfolding (exponential in the work done);
+    # the harness measures the unfolding on the object graph and skips ToJSON only beyond 2e6 nodes with <= 5000 containers
+    skipped = [(c, rw[0]) for c, rw in zip(cases, results) if rw and rw[0] and rw[0].get("json_skip_tree")]
+    res.cov["json_observer_skipped_tree_unfolding"] = len(skipped)
+    if skipped:
+        c, row = skipped[0]
+        if KF_JSON_TREE in known:
+            res.known(f"key={KF_JSON_TREE} cases={len(skipped)} first={json.dumps(describe(c)['source'], ensure_ascii=False)} "
+                      f"tree_nodes={row['json_skip_tree']:.3g} containers={row['json_skip_graph']} :: {known[KF_JSON_TREE]['what']}")
+        else:
+            res.violation(dict(describe(c), what="Attrs.ToJSON would write the tree unfolding of a small object graph (not observed: it does not return)",
+                               tree_nodes=row["json_skip_tree"], containers=row["json_skip_graph"]))
+            found += 1
     res.cov["rule"] = ("operand matrix (every unary/binary operator, index/slice/attr/call, every dice-family operand position, builtins and methods x value "
                        "types x boundary ints), nesting sweeps around the limits 20/1000/8192/512, the repository's own test sources + mutations + every-prefix "
                        "cuts, generated programs / token soups / st lists / program+tail; x random syntax flags x IgnoreDiv0 x min/random/max mode x "
@@ -235,7 +258,7 @@ def run(res, tier, seed):
         wrows = k2cases.go_run(wf_inputs)
         terms = []
         for inp, row in zip(wf_inputs, wrows):
-            if not row:
+            if not row or not row.get("steps"):
                 continue
             t, _why = k2cases.case_term(inp, row)
             if t:
